@@ -344,8 +344,12 @@ class C01(Prop):
                 out.append(Case("rd io %s I,x%s,I,I,x%s,I nbnbnb" % (rcap, hx(f[:cut]), hx(f[cut:])), "io-interrupted", dict(rt_rd=hx(p))))
         # payloads beyond 64 KiB and 1 MiB in the growable buffer (no size limit may hide in it); the larger one is not
         # run through the model (suite rtx)
-        p = gen.payload(rng, 70000)
-        out.append(Case("rt - %s" % hx(p), "rt-vec-70k", dict(p=hx(p))))
+        for n in (70000, 65520, 65535):
+            p = gen.payload(rng, n)
+            if n < 70000:
+                # frame length exactly 2^16 / just above (a wrapped 16-bit length counter looks "too short"): no escapes
+                p = bytes(b if b != 0x1b else 0x1c for b in p)
+            out.append(Case("rt - %s" % hx(p), "rt-vec-64k", dict(p=hx(p))))
         p = gen.payload(rng, (1 << 20) + 37)
         out.append(Case("rtx - %s" % hx(p), "rt-vec-1M", dict(p=hx(p))))
         # frames whose last byte is 0x00 (checksum high byte) through the slice reader: nothing may be trimmed
@@ -578,10 +582,13 @@ class C05(Prop):
             out.append(Case("rd io 8 x%s,x%s nbnbnb" % (hx(bytes([0x55]) * ln), hx(f)), "longnoise"))
         out += reader_cases(rng, 400 if tier == "quick" else 4000)
         out += long_run_cases(rng)
+        out.append(Case("enchint", "encoder-endless-source", dict(enchint=True)))
         out += alloc_failure_cases(rng, 12 if tier == "quick" else 150)
         return out
 
     def project(self, case, out):
+        if case.line == "enchint":
+            return ""
         return "panic" if has_panic(out) else "ok"
 
     def nontrivial(self, case, out):
@@ -595,6 +602,11 @@ class C05(Prop):
                     why = alloc_failure_check(o)
                     if why:
                         bad.append(dict(case=c.line, why="%s build: %s" % (prof, why)))
+                        break
+                    continue
+                if c.meta.get("enchint"):
+                    if o != "ok":
+                        bad.append(dict(case=c.line, why="%s build: iterator encoder over an endless source (size_hint / first bytes): %s" % (prof, o[:120])))
                         break
                     continue
                 if has_panic(o):
@@ -612,7 +624,7 @@ RD_CAPS = ["-", "default", "8192", "1024", "256", "64", "32", "16", "8", "4", "0
 def model_line(line):
     if line.startswith("encu "):
         return "frame " + line.split(" ")[1]      # the specification: the frame of the bytes before the first None
-    if line.startswith("encbx ") or line.startswith("alloclim ") or line.startswith("rtx "):
+    if line.startswith("encbx ") or line.startswith("alloclim ") or line.startswith("rtx ") or line == "enchint":
         return "crc ."           # not run through the model (see C07.cases / alloc_failure_cases)
     if line.startswith("rd "):
         line = line.replace(" default ", " 8192 ")
@@ -832,6 +844,16 @@ class C14(Prop):
             elif r < 0.75:
                 cutp = s[:rng.randint(0, len(s))]
                 pre = ",".join(x for x in ["x" + hx(cutp) if cutp else "", rng.choice(["F", "R", "N"])] if x)
+            elif r < 0.80:
+                # a transmission cut exactly where a fixed buffer overflows: the last event of the prefix is OutOfMemory
+                capn = rng.choice([4, 8, 16])
+                body = bytes(rng.choice([0x55, 0x12, 0x34, 0x7f]) for _ in range(capn + 1))
+                if rng.random() < 0.5:
+                    # ... overflowing while the withheld zeros are written
+                    z = rng.randint(2, 4)
+                    body = body[:capn - z + 1] + bytes(z) + b"\x9a"
+                pre = "x" + hx(gen.START + body)
+                out_cap_override = str(capn)
             elif r < 0.87:
                 # a transmission that ends in an invalid escape sequence / a rejected end sequence: the error event is
                 # the last event of the prefix, whatever bytes the rejected sequence consisted of
@@ -845,6 +867,8 @@ class C14(Prop):
                 p = gen.payload(rng, rng.randint(5, 30))
                 pre = "x" + hx(gen.frame(p))
             cap = rng.choice(["-", "4", "8", "16", "32", "64"])
+            if 0.75 <= r < 0.80:
+                cap = out_cap_override
             # continuation
             cr = rng.random()
             if cr < 0.3:
@@ -950,7 +974,7 @@ class C15(Prop):
         n = 700 if tier == "quick" else 7000
         out = []
         for k in range(n):
-            s, desc = gen.stream(rng, maxpay=30)
+            s, desc = gen.stream(rng, maxpay=30, nseg=None if rng.random() < 0.9 else rng.randint(10, 16))
             if rng.random() < 0.3:
                 s = s[:rng.randint(0, len(s))]
             caps = ["-"] + [str(c) for c in [16, 32, 64, 256, 1024, 8192] if c >= len(s)]
@@ -1073,6 +1097,21 @@ class C16(Prop):
             fb = rng.random() < 0.25
             out.append(Case("dec %d %sx%s,x%s" % (L, "N," if fb else "", hx(gen.frame(m)), hx(gen.frame(q))),
                             ("exact" if d <= 0 else "toosmall") + ("-frombuf" if fb else ""), dict(m=m, q=q, N=L, shift=1 if fb else 0)))
+        # the same through SmlReader with a small static buffer: OutOfMemory for the oversized frame, then the next frame
+        for _ in range(60 if tier == "quick" else 600):
+            L = rng.choice([4, 8, 16, 32, 64])
+            ml = L + rng.choice([1, 1, 2, 3])
+            m = bytearray(gen.payload(rng, ml))
+            tail = rng.random()
+            if tail < 0.35:
+                k = rng.randint(1, 3); m[-k:] = bytes(k)                                   # ends in zeros
+            elif tail < 0.7:
+                k = rng.randint(1, 3); m[-k:] = bytes([0x1b] * k)                          # ends in 1-3 0x1b
+            m = bytes(m)
+            q = gen.payload(rng, rng.randint(0, min(L, 8)))
+            kind = rng.choice(["slice", "iter", "io"])
+            out.append(Case("rd %s %d x%s,x%s nbnbnbnbnbnb" % (kind, L, hx(gen.frame(m)), hx(gen.frame(q))), "rd-toosmall",
+                            dict(rdq=hx(q), rdm=hx(m))))
         for ml in [8190, 8191, 8192, 8193, 8194]:
             for _ in range(2 if tier == "quick" else 10):
                 m = gen.payload(rng, ml)
@@ -1096,6 +1135,21 @@ class C16(Prop):
     def oracle(self, cases, dbg, rel, spec):
         bad = []
         for i, c in enumerate(cases):
+            if "rdq" in c.meta:
+                for prof, o in both(dbg, rel, i):
+                    items = o.split(";")
+                    if items[0] != "EO":
+                        why = "oversized frame through a small reader buffer: first result is not OutOfMemory: %s" % items[:3]
+                    elif any(x.startswith("M") and x != "M" + c.meta["rdq"] for x in items):
+                        why = "a payload other than the second frame's was reported: %s" % [x[:40] for x in items if x.startswith("M")][:2]
+                    elif ("M" + c.meta["rdq"]) not in items:
+                        why = "after OutOfMemory the next frame was not delivered: %s" % items[:5]
+                    else:
+                        why = None
+                    if why:
+                        bad.append(dict(case=c.line, why="%s build: %s" % (prof, why)))
+                        break
+                continue
             if "m" not in c.meta:
                 continue
             m, N = c.meta["m"], c.meta["N"]
@@ -1792,7 +1846,9 @@ class C06(ParserProp):
                     why = "a parser panicked / aborted: %s" % o[:200]
                 elif c.meta.get("alloc"):
                     m = re.match(r"complete=(\w+):bytes=(\d+):calls=(\d+);streaming=(\w+):bytes=(\d+):calls=(\d+)", o)
-                    if not m:
+                    if o.startswith("collect-requested"):
+                        why = "collecting streaming::Parser reserved heap by a declared length, not by what it can yield: " + o[:100]
+                    elif not m:
                         why = "unexpected output " + o[:100]
                     else:
                         n = len(unhx(c.line.split(" ")[1]))
@@ -2296,7 +2352,7 @@ class C11(Prop):
                 toks = []
                 i = 0
                 nw = 0
-                menu = ["W", "W", "I"] if kind == "io" else ["W"]
+                menu = ["W", "W", "I", "I,I,I,I,I,I,I,I,I,I,I,I"] if kind == "io" else ["W"]      # also a dozen interrupts in a row
                 while True:
                     for _k in range(rng.choice([0, 0, 1, 1, 2, 3])):
                         f = rng.choice(menu)
